@@ -114,7 +114,9 @@ def run(repo: Repo, chk: Check, thorough: bool = False) -> None:
                     detail = (f'errors are reported against `{a0.id}` but the docstring belongs to `{owner[0]}` (the object whose module '
                               'decides the docformat): an inherited docstring is reported once per inheriting object, in the wrong file')
         chk.ob('R08.1', f'{PARSE_BARRIER} :: errors reported on every path', ok, detail, f.loc)
-    chk.require('R08.1', 6)
+    # (vacuity guard: text not re-bound, parser call guarded, one fallback + one record per catch-all handler, reporting - a separate `except ParseError`
+    # handler adds an instance, merging it into the catch-all is legitimate)
+    chk.require('R08.1', 5)
 
     # ---------------------------------------------------------------- R08.2
     parser_funcs = {g.qn for g in repo.funcs.values() if g.name == 'parse_docstring' and
